@@ -8,13 +8,14 @@ import lib_C18 as L
 
 ID = "C18"
 THEOREM = ("Ufo2ft.C18.C18_all_partial / C18_classes_partial / C18_classes_font / C18_classes_disjoint / C18_carets_partial / "
-           "C18_carets_font_partial / C18_curs / C18_curs_flag / C18_ltr_extras / C18_ltr_extras_mem / C18_seq / runSeq_eq / "
+           "C18_carets_font / C18_carets_var_partial / caretValueOld_eq / C18_curs / C18_curs_flag / C18_ltr_extras / C18_ltr_extras_mem / C18_seq / runSeq_eq / "
            "C18_seq_independent / C18_user_left_alone_partial / C18_unnamed_anchor_ignored / "
            "C18_quantize / C18_anchor / C18_categories / C18_pairs / holdsPairs_unique")
 N = {"quick": 420, "thorough": 20000}
 RULE = ("random small fonts (Latin, Arabic, Hebrew, Greek, common-script and unencoded glyphs; ufoLib2/defcon; TTF/OTF) with "
         "public.openTypeCategories maps (valid, invalid, 'unassigned', skipped and absent glyph names), caret_/vcaret_ anchors "
-        "(equal values, values equal after rounding, half-integers, negatives, look-alike names), entry/exit anchors (one-sided, "
+        "(equal values, values equal after rounding, half-integers, negatives, look-alike names, several caret anchors sharing a "
+        "name), entry/exit anchors (one-sided, "
         "numbered and .LTR/.RTL suffixed pairs, mixed-direction repertoires, GSUB closure of direction), skipExportGlyphs, user "
         "GDEF blocks (GlyphClassDef / LigatureCaretByPos / ByIndex / neither), user curs feature with and without insertion marker, "
         "writers with a quantization option; compiled through compileTTF/compileOTF and read back from GDEF/GPOS and from the final "
@@ -25,19 +26,26 @@ RULE = ("random small fonts (Latin, Arabic, Hebrew, Greek, common-script and une
         "alternate carrying unsuffixed cursive anchors; plus random rules: chains, right-to-left sources, unknown names; designspace- "
         "level skipExportGlyphs); writers are ready-made instances (all four, or Gdef+Curs only, with or without quantization) or "
         "ufo2ft's defaults; masters differ in anchor coordinates and, in 2 of 3 cases, in their category maps (changed values, key "
-        "absent, fresh map).  Unit streams call _getAnchor/quantize, OpenTypeCategories.load and _getCursiveAnchorPairs directly.  "
+        "absent, fresh map).  Variable stream (max(16, n/25) cases): compileVariableTTF on 2-3 full masters (default first, the same "
+        "anchor names in every master, coordinates equal / equal after rounding / different across masters), observed: the "
+        "LigatureCaretByPos statements of the final feature text (numbers and variable scalars, per master) and the default "
+        "coordinates of the compiled LigCaretList.  Unit streams call _getAnchor/quantize, OpenTypeCategories.load and _getCursiveAnchorPairs directly.  "
         "non-trivial = the font has a class-bearing exported glyph or a caret glyph, and at least one cursive pair.")
 ASSUMED = [
     "which code points are left-to-right and the set classifyGlyphs(cmap, GSUB)['LTR'] (cmap classification + fontTools' GSUB closure, WITHOUT the designspace rule substitutions) are inputs of the model, computed by the harness with ufo2ft.util.classifyGlyphs/unicodeScriptDirection on the compiled cmap and GSUB; the rule substitutions are taken from the designspace the harness built and applied by the model (applyExtras)",
     "feaLib compiles the emitted GlyphClassDef / LigatureCaretByPos / pos cursive statements faithfully (modelled as fontClasses/fontCarets and compared with the compiled tables on every case, not proved)",
     "the glyph objects of the feature compiler's glyph set carry the UFO glyph's anchors (no anchor-changing filter is generated)",
     "quantisation steps are positive; x/q and x+0.5 are exact in double arithmetic on the generated grids",
-    "static fonts only (single UFOs and the static masters of compileInterpolatable*): the VariableScalar branches of _getAnchor/_getLigatureCarets (variable feature compilation) are not modelled",
+    "variable feature compilation is modelled for the ligature carets only (varcarets stream: full masters with the same anchor names in the same order, default source first, one axis, no quantisation option); the VariableScalar branch of _getAnchor as used by the curs writer is not modelled",
+    "the deltas varLib stores for a variable caret are not read back: the variable carets are observed in the final feature text (per-master values) and the compiled table's default coordinates are compared with them",
     "a writer instance keeps only its constructor options between two write() calls (model runSeq: the context is rebuilt by setContext and deleted afterwards); measured on every multi-font case, where each font is compared with the model of a fresh build of that font",
 ]
 
 _FINDINGS_FILE = os.path.join(os.path.dirname(os.path.dirname(os.path.dirname(os.path.abspath(__file__)))), "known_findings.json")
-FINDING_KINDS = ("same-named-caret-anchors-collapse-to-first", "gdef-statement-in-later-user-block-ignored")
+FINDING_KINDS = ("gdef-statement-in-later-user-block-ignored", "same-named-caret-anchors-collapse-to-last")
+# repaired in ufo2ft (known_findings.json kind "fixed"): its input shape is ordinary input now, and classify_failure still
+# names it, so that a recurrence is reported as a VIOLATION carrying this shape
+FIXED_KINDS = ("same-named-caret-anchors-collapse-to-first", "unnamed-anchor-crashes-curs-writer")
 
 
 def enabled_findings():
@@ -137,11 +145,16 @@ def gen_font(rng, mode, findings):
     names = [g["name"] for g in glyphs]
     # findings streams (see enabled_findings)
     # at most one finding shape per case, so that each failure has exactly one cause
-    inject = rng.choice(sorted(findings)) if findings and rng.random() < 0.15 else None
-    if inject == "same-named-caret-anchors-collapse-to-first":
+    font_findings = sorted(f for f in findings if f == "gdef-statement-in-later-user-block-ignored")
+    inject = rng.choice(font_findings) if font_findings and rng.random() < 0.08 else None
+    if rng.random() < 0.08:
+        # several caret anchors sharing a name: each contributes its own coordinate (repaired in ufo2ft; before, the first
+        # one's coordinate was read for all of them)
         g = rng.choice(glyphs)
         cn = rng.choice(CARETS)
-        g["anchors"] += [[cn, 100, 20], [cn, 300, 40]]
+        g["anchors"] += [[cn, _coord(rng, mode), _coord(rng, mode)] for _ in range(rng.choice([2, 2, 3]))]
+        if rng.random() < 0.5:
+            rng.shuffle(g["anchors"])
     skip = [nm for nm in names if nm != ".notdef" and rng.random() < 0.12] if rng.random() < 0.35 else []
     if len(skip) == len([nm for nm in names if nm != ".notdef"]):
         skip = skip[1:]
@@ -341,6 +354,37 @@ def gen_multi(rng, mode):
     return case
 
 
+def gen_var(rng, mode, findings):
+    """a designspace of 2-3 full masters (default first) for compileVariableTTF: the same anchor names in the same order
+    in every master, caret names distinct within a glyph unless the known shape is enabled"""
+    nm = rng.choice([2, 2, 3])
+    dup = "same-named-caret-anchors-collapse-to-last" in findings and rng.random() < 0.15
+    glyphs = []
+    for gname in rng.sample(["f_i", "f_f_i", "lam_alef-ar", "x", "a.alt"], rng.choice([1, 2, 3])):
+        names = rng.sample(CARETS, rng.choice([0, 1, 2, 3, 4]))
+        if rng.random() < 0.4:
+            names.append(rng.choice(OTHERS[:12]))
+        if dup and names:
+            names += [rng.choice([n_ for n_ in names if n_ in CARETS] or CARETS)] * rng.choice([1, 2])
+            dup = False
+        rng.shuffle(names)
+        base = [[n_, _coord(rng, mode), _coord(rng, mode)] for n_ in names]
+        per = []
+        for k in range(nm):
+            al = []
+            for n_, x, y in base:
+                r = rng.random()
+                if k == 0 or r < 0.3:      # equal in all masters: collapses to a plain number
+                    al.append([n_, x, y])
+                elif r < 0.45:             # equal after rounding only
+                    al.append([n_, x + rng.choice([0.25, -0.25, 0.125]), y + rng.choice([0.25, -0.25])])
+                else:
+                    al.append([n_, _coord(rng, mode), _coord(rng, mode)])
+            per.append(al)
+        glyphs.append([gname, per])
+    return {"kind": "var", "masters": nm, "dflt": 0, "glyphs": glyphs}
+
+
 def gen(rng, n, mode):
     findings = enabled_findings()
     # fixed witnesses of the branches first
@@ -350,6 +394,8 @@ def gen(rng, n, mode):
         yield gen_font(rng, mode, findings)
     for i in range(max(40, n // 6)):
         yield gen_multi(rng, mode)
+    for i in range(max(16, n // 25)):
+        yield gen_var(rng, mode, findings)
     for i in range(max(20, n // 6)):
         anchors = [[rng.choice(["entry", "exit", "caret_1", "top", "", None] if i % 7 == 0 else ["entry", "exit", "caret_1", "top", ""]),
                     _coord(rng, "search" if i % 2 else mode), _coord(rng, mode)] for _ in range(rng.choice([0, 1, 2, 3, 4]))]
@@ -395,8 +441,19 @@ def witnesses(findings):
         yield dict(base, fd={"glyphs": mixed, "lib": {"public.openTypeCategories": cats}},
                    blocks=[{"classdef": None, "carets": None, "caretKind": None},
                            {"classdef": [["period"], [], [], []], "carets": None, "caretKind": None}])
-    if "same-named-caret-anchors-collapse-to-first" in findings:
-        yield dict(base, fd={"glyphs": [_g("f_i", [("caret_1", 100, 0), ("caret_1", 200, 0)])], "lib": {}})
+    # caret anchors sharing a name are ordinary input (the reproducer of the repaired collapse, and a mixed glyph)
+    yield dict(base, fd={"glyphs": [_g("f_i", [("caret_1", 100, 0), ("caret_1", 200, 0)])], "lib": {}})
+    yield dict(base, fd={"glyphs": [_g("a", [], 0x61), _g("f_f_i", [("vcaret_1", 0, 50.5), ("caret_2", 300, 7), ("caret_1", 100.5, 0),
+                                                                   ("caret_2", 99.5, 0), ("vcaret_1", 3, 20), ("caret_2", 300.25, 1)])],
+                         "lib": {}}, otf=True, quant=5)
+    yield {"kind": "var", "masters": 2, "dflt": 0,
+           "glyphs": [["f_i", [[["caret_1", 100, 0], ["caret_2", 200.5, 0], ["vcaret_1", 0, 50], ["top", 5, 5]],
+                               [["caret_1", 110, 0], ["caret_2", 230, 0], ["vcaret_1", 0, 50], ["top", 6, 6]]]],
+                      ["f_f_i", [[["caret_2", 300, 0], ["caret_1", 100, 0]], [["caret_2", 250, 0], ["caret_1", 120, 0]]]],
+                      ["x", [[["entry", 1, 1]], [["entry", 2, 2]]]]]}
+    if "same-named-caret-anchors-collapse-to-last" in findings:
+        yield {"kind": "var", "masters": 2, "dflt": 0,
+               "glyphs": [["f_i", [[["caret_1", 100, 0], ["caret_1", 200, 0]], [["caret_1", 110, 0], ["caret_1", 230, 0]]]]]}
     # the same writer instances for several fonts; designspace rules as the only link to a left-to-right glyph
     multi = {"kind": "multi", "otf": False, "lib": "ufoLib2", "writers": "instances", "quant": None, "rules": [], "dsSkip": None}
     plain = {"blocks": [], "gsub": [], "userCurs": None}
@@ -693,6 +750,78 @@ def _run_multi(case):
     return reqs
 
 
+def _run_var(case):
+    """compileVariableTTF (variable feature compilation: the writers see the designspace, context.isVariable) on full
+    masters; observed: the LigatureCaretByPos statements of the final feature text, each caret a number or a variable
+    scalar (its value per master), and the default coordinates of the compiled GDEF"""
+    import logging
+    import re
+    logging.disable(logging.CRITICAL)
+    import ufo2ft
+    nm = case["masters"]
+    ufos = []
+    for k in range(nm):
+        gl = [{"name": "a", "width": 500, "unicodes": [0x61], "contours": TRI, "components": [], "anchors": []}]
+        for gname, per in case["glyphs"]:
+            gl.append({"name": gname, "width": 500 + 10 * k, "unicodes": [], "contours": TRI, "components": [], "anchors": per[k]})
+        u = build({"upm": 1000, "glyphs": gl, "info": {}, "lib": {}, "glyphOrder": None}, "ufoLib2")
+        u.info.familyName, u.info.styleName = "C18", "M%d" % k
+        ufos.append(u)
+    order = list(range(nm))
+    order.remove(case["dflt"])
+    order.insert(0, case["dflt"])          # the default source is listed first
+    ds = _designspace([ufos[k] for k in order], [])
+    wght = {100 + 100 * j: j for j in range(nm)}     # location of the j-th source
+    inp = {"dflt": 0, "glyphs": [[gname, [[[a[0], rat(a[1]), rat(a[2])] for a in per[k]] for k in order]]
+                                 for gname, per in case["glyphs"]]}
+    tags = ["var", "masters:%d" % nm]
+    dbg = io.StringIO()
+    try:
+        vf = ufo2ft.compileVariableTTF(ds, debugFeatureFile=dbg)
+        vf = _reread(vf)
+    except Exception as e:
+        return [{"op": "varcarets", "in": inp, "obs": {"err": err_kind(e)}, "tags": tags + ["err:" + err_kind(e)], "nontrivial": True}]
+    obs, bad = [], None
+    for line in dbg.getvalue().splitlines():
+        m = re.match(r"\s*LigatureCaretByPos (\S+) (.*);\s*$", line)
+        if not m:
+            if "LigatureCaret" in line:
+                bad = line
+            continue
+        carets = []
+        for tok in re.findall(r"\([^)]*\)|[^\s()]+", m.group(2)):
+            if tok.startswith("("):
+                vals = [None] * nm
+                for part in tok[1:-1].split():
+                    loc, v = part.rsplit(":", 1)
+                    mm = re.fullmatch(r"wght=(-?\d+(?:\.\d+)?)", loc)
+                    if not mm or float(mm.group(1)) not in wght or not re.fullmatch(r"-?\d+", v):
+                        bad = line
+                        continue
+                    vals[wght[float(mm.group(1))]] = int(v)
+                carets.append(vals)
+            elif re.fullmatch(r"-?\d+", tok):
+                carets.append(int(tok))
+            else:
+                bad = line
+        obs.append([m.group(1), carets])
+    if bad is not None:
+        return [{"op": "varcarets", "in": inp, "obs": {"err": "Malformed:caret statement"}, "tags": tags + ["err:malformed"], "nontrivial": True}]
+    font = dict(L.font_carets(vf))
+    # the writer walks the compiler's ordered glyph set
+    pos = {g: k for k, g in enumerate(vf.getGlyphOrder())}
+    inp["glyphs"].sort(key=lambda e: pos.get(e[0], 1 << 30))
+    for g, cs in obs:
+        if any(isinstance(c, list) for c in cs):
+            tags.append("caret:variable")
+        if any(isinstance(c, int) for c in cs):
+            tags.append("caret:collapsed")
+    req = {"op": "varcarets", "in": inp, "obs": obs, "tags": sorted(set(tags)), "nontrivial": bool(obs)}
+    # the compiled table's default coordinates are those of the statements (checked in agree)
+    req["fontDefault"] = [[g, font.get(g)] for g, _ in obs] + [[g, v] for g, v in sorted(font.items()) if g not in dict(obs)]
+    return [req]
+
+
 class _A:
     def __init__(self, name, x, y):
         self.name, self.x, self.y = name, x, y
@@ -753,6 +882,8 @@ def run(case):
         return _run_font(case)
     if k == "multi":
         return _run_multi(case)
+    if k == "var":
+        return _run_var(case)
     if k == "anchor":
         return _run_anchor(case)
     if k == "cats":
@@ -762,6 +893,17 @@ def run(case):
 
 def agree(req, rep):
     m, o = rep["model"], req["obs"]
+    if req["op"] == "varcarets":
+        if isinstance(o, dict):
+            return False        # the model never fails
+        def canon_(l):
+            # carets with equal sort key come out in set-iteration order: compare them as a multiset
+            return [[g, sorted(cs, key=lambda c: json.dumps(c))] for g, cs in l]
+        def keys_(l):
+            return [[g, [c if isinstance(c, int) else next(v for v in c if v is not None) for c in cs]] for g, cs in l]
+        dflt = [[g, [c if isinstance(c, int) else c[0] for c in cs]] for g, cs in o]
+        return canon_(m) == canon_(o) and keys_(m) == keys_(o) and \
+            [[g, sorted(v or [])] for g, v in req.get("fontDefault", [])] == [[g, sorted(v)] for g, v in dflt]
     if req["op"] != "font":
         return json.dumps(m, sort_keys=True) == json.dumps(o, sort_keys=True)
     if m.get("err") is not None or o.get("err") is not None:
@@ -779,6 +921,23 @@ def agree(req, rep):
 def classify_failure(res):
     """recognise exactly the shapes of the genuine defects described in the report"""
     req = res["req"]
+    if req["op"] == "varcarets":
+        # variable path: `_getAnchor` looks caret anchors up by NAME in every source; of several of one name in a source the
+        # last one's coordinate is emitted (once per anchor of that name), the others are lost
+        info = res.get("info") or {}
+        def dup(al):
+            seen = {}
+            for n, x, y in al:
+                if n and (n.startswith("caret_") or n.startswith("vcaret_")):
+                    v = x if n.startswith("caret_") else y
+                    if n in seen and seen[n] != v:
+                        return True
+                    seen[n] = v
+            return False
+        if not isinstance(req["obs"], dict) and res["agree"] and info.get("holdsIfLastNamedOnly") \
+                and any(dup(al) for _, per in req["in"]["glyphs"] for al in per):
+            return {"kind": "same-named-caret-anchors-collapse-to-last", "path": "variable"}
+        return None
     if req["op"] != "font":
         return None
     inp, obs, model = req["in"], req["obs"], res["model"]
@@ -793,9 +952,11 @@ def classify_failure(res):
                 return {"kind": "gdef-statement-in-later-user-block-ignored"}
         return None
     parts = model.get("_parts")
-    if not parts or not res["agree"]:
+    if not parts:
         return None
     bad = sorted(k for k in ("classesFea", "caretsFea", "classesFont", "caretsFont", "curs") if not parts[k])
+    # the static shape repaired in ufo2ft (kind "fixed" in known_findings.json): named whether or not the model agrees - the
+    # model follows the repaired code, so a recurrence disagrees with it - and therefore always a VIOLATION
     if bad and set(bad) <= {"caretsFea", "caretsFont"} and parts["caretsIfFirstNamed"]:
         def dup(al):
             seen = {}
@@ -808,6 +969,8 @@ def classify_failure(res):
             return False
         if any(dup(al) for _, al in inp["glyphs"]):
             return {"kind": "same-named-caret-anchors-collapse-to-first"}
+    if not res["agree"]:
+        return None
     if bad and set(bad) <= {"classesFea", "caretsFea", "classesFont", "caretsFont"} and parts["gdefIfFirstBlockOnly"] \
             and len(inp["blocks"]) >= 2:
         first = inp["blocks"][0]
@@ -892,7 +1055,22 @@ def _shrink_multi(case):
             yield dict(case, fonts=fonts[:k] + [c] + fonts[k + 1:])
 
 
+def _shrink_var(case):
+    gl = case["glyphs"]
+    for i in range(len(gl)):
+        if len(gl) > 1:
+            yield dict(case, glyphs=gl[:i] + gl[i + 1:])
+    for i, (g, per) in enumerate(gl):
+        for j in range(len(per[0])):     # the same anchor position in every master
+            yield dict(case, glyphs=gl[:i] + [[g, [al[:j] + al[j + 1:] for al in per]]] + gl[i + 1:])
+    if case["masters"] > 2:
+        yield dict(case, masters=2, glyphs=[[g, per[:2]] for g, per in gl])
+
+
 def shrink(case):
+    if case["kind"] == "var":
+        yield from _shrink_var(case)
+        return
     if case["kind"] == "multi":
         yield from _shrink_multi(case)
         return
@@ -916,7 +1094,9 @@ LEVEL_TEXT = ("Proved for all inputs (Lean, unbounded glyph sets / anchor lists 
               "lists, per class, exactly the exported glyphs with that category, strictly sorted, classes disjoint, invalid categories and "
               "foreign names contributing nothing, and nothing is emitted when the user's (single) GDEF block defines it; the compiled class "
               "of every glyph is the code of its category; each caret list is increasing and has exactly the otRound(quantize(.)) values of "
-              "the glyph's caret_/vcaret_ anchors (strictly increasing in the compiled font); every glyph with an entry or exit anchor of a "
+              "ALL the glyph's caret_/vcaret_ anchors, also of anchors sharing a name (strictly increasing, de-duplicated in the compiled "
+              "font); in a variable build (masters with the same anchor names, caret names distinct within a glyph) the emitted carets "
+              "take in every master exactly that master's rounded caret coordinates, ordered by the first master; every glyph with an entry or exit anchor of a "
               "present pair has its record with exactly the rounded coordinates and NULL for the missing side, in a lookup whose RightToLeft "
               "flag follows the suffix/LTR rule, where a glyph is left-to-right iff it is in the GSUB-closed left-to-right set or a designspace "
               "rule substitutes it for a glyph of that set (one step; C18_ltr_extras, C18_curs_flag), with no other records and one record per "
@@ -931,6 +1111,10 @@ LEVEL_NOTE = ("Trusted: Lean kernel + standard axioms; the correspondence harnes
               "branches with VariableScalar anchors are not).  That a writer instance carries nothing but its options from one write() to "
               "the next is the model's reading of BaseFeatureWriter.write (runSeq) and is measured, per font, on every multi-font case; "
               "a state leak that does not reach GDEF classes, carets or cursive lookups would not be seen.  Two input shapes on "
-              "which the code departs from the property are theorem hypotheses (distinct caret anchor names, at most one user GDEF block) "
-              "and are known findings; a third (an unnamed anchor crashed the curs writer) was repaired in ufo2ft 87dd8ed and is an ordinary "
-              "input now (theorem C18_unnamed_anchor_ignored).")
+              "which the code departs from the property are theorem hypotheses and known findings: more than one user GDEF block (oneBlock), "
+              "and, in the VARIABLE path only, caret anchors sharing a name (caretLast: _getAnchor looks them up by name per source and the "
+              "last one wins).  Two shapes were repaired in ufo2ft and are ordinary inputs now: an unnamed anchor crashed the curs writer "
+              "(87dd8ed, theorem C18_unnamed_anchor_ignored), and in static builds same-named caret anchors collapsed to the first "
+              "(_getLigatureCarets now hands the anchor to _getAnchor; C18_carets_partial / C18_carets_font have no name hypothesis any "
+              "more; the old function survives as caretValueOld with a labelled counterexample, and classify_failure still names the shape "
+              "so that a recurrence is a VIOLATION).")
